@@ -4,6 +4,7 @@
 mod common;
 mod c01;
 mod c02;
+mod c03;
 mod c05;
 mod c06;
 mod c07;
@@ -46,6 +47,7 @@ fn main() {
     let res = std::panic::catch_unwind(|| match id.as_str() {
         "C01" => c01::run(tier, replay),
         "C02" => c02::run(tier, replay),
+        "C03" => c03::run(tier, replay),
         "C05" => c05::run_check(tier, replay),
         "C06" => c06::run(tier, replay),
         "C07" => c07::run(tier, replay),
